@@ -110,7 +110,7 @@ pub fn sph_points(f32mode: bool) -> Vec<f64> {
     let eps = if f32mode { f32::EPSILON as f64 } else { f64::EPSILON };
     let tiny = if f32mode { f32::MIN_POSITIVE as f64 } else { f64::MIN_POSITIVE };
     let mut v = vec![0.0, tiny, 1e-30, eps / 4.0, eps * 0.99, eps, eps * 1.01, 2.0 * eps, 1e-8, 1e-6, 1e-5, 1e-4, 1e-3,
-                     0.01, 0.02, 0.05, 0.1, 0.15, 0.2, 0.25, 0.29, 0.2999999, 0.3, 0.3000001, 0.35, 0.7, 0.99, 1.0, 1.5, 3.14159, 4.4934, 7.0, 12.3, 25.0, 49.9, 50.0];
+                     0.01, 0.02, 0.05, 0.1, 0.15, 0.2, 0.24, 0.25, 0.29, 0.2999999, 0.3, 0.3000001, 0.35, 0.7, 0.99, 1.0, 1.5, 3.14159, 4.4934, 7.0, 12.3, 25.0, 49.9, 50.0];
     let neg: Vec<f64> = v.iter().filter(|x| **x != 0.0).map(|x| -x).collect();
     v.extend(neg);
     v
@@ -175,6 +175,12 @@ impl<'a> TypeFn for SpecSweep<'a> {
                     };
                     let series_limit = if self.what == "bessel" { 0.05 } else { 0.3 };
                     let mut tw_true: Vec<VE> = if ax <= series_limit { series_tower(ser, x, u) } else { closed_tw()? };
+                    if self.what == "sph" && ax >= 0.25 && ax <= series_limit {
+                        // a band below the series limit in which either algorithm is accepted: the closed form evaluated in
+                        // floats may lose what its own terms say (the switch of the implementation is not part of the oracle)
+                        let c = closed_tw()?;
+                        for (t, cc) in tw_true.iter_mut().zip(&c) { t.e += cc.e; }
+                    }
                     if self.what == "bessel" {
                         // C14 asks for near machine ABSOLUTE accuracy of J_n (all derivatives of J_n are O(1))
                         for t in tw_true.iter_mut() { t.e = t.e.max(4.0 * u); }
@@ -329,6 +335,7 @@ pub fn special_sweep(tabs: &Tables, series: &HashMap<String, Series>, what: &str
                         VE { v: r.v, e: 8.0 * u * r.m }
                     };
                     let cm = if x == 0.0 { 0.0 } else { eval_poly(&closed[0], &|g| generator(g, x, &par).map(|v| VM { v, m: v.abs() }))?.m };
+                    let t = if x.abs() >= 0.25 && x.abs() <= 0.3 { VE { v: t.v, e: t.e + 8.0 * u * cm } } else { t };
                     let err = (obs - t.v).abs();
                     let strict = K_STRICT * (t.e + u * t.v.abs()) + if f32mode { 2f64.powi(-147) } else { 2f64.powi(-1072) };
                     plain += 1;
